@@ -5,6 +5,7 @@ import (
 	"fmt"
 	"os"
 	"path/filepath"
+	"strings"
 	"sync"
 	"syscall"
 	"time"
@@ -44,7 +45,7 @@ func (s *sink) count() int {
 }
 
 // C13, real-FIFO half: both concrete pipe ingesters, cancellation while
-// (1) waiting for a writer to open the pipe, (2) blocked reading an idle open
+// (1) waiting for a writer to open the pipe (also after the pipe's path was removed or re-created meanwhile), (2) blocked reading an idle open
 // pipe, (3) holding a partial record.
 func runC13fifo(run *mc.Run) int {
 	sshd.SetLogger(mc.DebugLogger())
@@ -57,7 +58,7 @@ func runC13fifo(run *mc.Run) int {
 	var samples []any
 	lat := map[string]float64{}
 	for _, which := range []string{"syslog-ingester", "auditlog-ingester"} {
-		for _, state := range []string{"waiting-for-writer", "idle-open-pipe", "partial-record-buffered", "after-some-records", "idle-after-slow-handoff", "idle-after-the-writer-was-replaced", "blocked-handing-over-downstream"} {
+		for _, state := range []string{"waiting-for-writer", "idle-open-pipe", "partial-record-buffered", "after-some-records", "idle-after-slow-handoff", "idle-after-the-writer-was-replaced", "blocked-handing-over-downstream", "waiting-for-writer-path-removed", "waiting-for-writer-path-recreated"} {
 			n++
 			name := which + "/" + state
 			path := filepath.Join(dir, fmt.Sprintf("c13-%d", n))
@@ -91,7 +92,16 @@ func runC13fifo(run *mc.Run) int {
 			go func() { done <- ingest(ctx) }()
 			var w *os.File
 			msg := ""
-			if state != "waiting-for-writer" {
+			if strings.HasPrefix(state, "waiting-for-writer-path-") {
+				// the worker waits for its first writer; meanwhile the pipe's path is removed (or removed and made
+				// anew) by whoever manages it: the name no longer leads to what the worker is waiting on
+				time.Sleep(20 * time.Millisecond)
+				_ = os.Remove(path)
+				if state == "waiting-for-writer-path-recreated" {
+					_ = syscall.Mkfifo(path, 0o600)
+				}
+				time.Sleep(10 * time.Millisecond)
+			} else if state != "waiting-for-writer" {
 				var err error
 				w, err = os.OpenFile(path, os.O_WRONLY, 0)
 				if err != nil {
